@@ -159,5 +159,8 @@ LEVEL_TEXT = ('On the macro-step model of AsyncBackgroundBatcher (coq/theories/B
     'virtual-time loop, incl. tasks that call again in the continuation of their answer; the monitor ok_C11 judges '
     'the observed trace independently of the model (monitor_basic_complete / monitor_basic_sound: the state-free '
     'conjuncts — no TaskDied, completion clock, no double completion, non-empty duplicate-free batches not in the '
-    'future — accept every model trace for all event lists and imply these facts; monitor_sound_partial for the full '
-    'monitor).')
+    'future — accept every model trace for all event lists and imply these facts; monitor_complete_nochain: the FULL '
+    'monitor ok_C11 — incl. FIFO of the observed batches against the queue of expected requests and the window '
+    'specification — accepts every model trace for all configurations and all event lists without Chain events, by a '
+    "simulation between model state and monitor state (Case_Batcher_C11.v, spec_ret: the monitor's window decides "
+    'exactly like the retention cache); monitor_sound_partial for soundness of the full monitor).')
